@@ -125,6 +125,32 @@ CHECKS["C07"] = dict(
     engine="tlc+replay",
 )
 
+_LAYOUT_NOTE = "Documents are generated from the grammar in canonical order (preconditions of C05 are generator constraints); token equivalence (number and escape notation, whitespace in comments and A2ML) is decided by the driver with an independent tokenizer; comments only at block level and at the file level (the latter is the open finding D18). Model equality is the library's ==. Edit locality through the API (third sentence of C05) and API-built models (C01) are not covered yet."
+CHECKS["C01"] = dict(
+    category="model_checking",
+    text="Layout.tla models the line bookkeeping of tokenizer, parser and writer and TLC checks on all abstract documents of up to 4 items (tokens, comments of height 1-3, strings; gaps 0-2; 111k documents) that writing is a fixpoint (no drift) - with the expected violation for the pinned scheme. The maximal document of every one of the 205 grammar elements under seeded layout patterns (enumerated by MC_LayoutCases), and the literal catalogue of every parameter type (all string escapes, integer limits in decimal and hex, float formats), are loaded, written and cycled three times by the real library; TLC (Trace_Layout) judges on the observations: every cycle loads, the model stays equal, the text is a byte fixpoint, no new diagnostics.",
+    design_ref="DESIGN.md §4.7, §6 C01",
+    note=_LAYOUT_NOTE,
+    technique="TLA+ spec (Layout.tla) model-checked with TLC; TLC-enumerated layout patterns and literal classes executed on the real load/write cycle; observations judged by TLC (Trace_Layout, Trace_Parser)",
+    engine="tlc+replay",
+)
+CHECKS["C02"] = dict(
+    category="model_checking",
+    text="Content preservation is judged on two levels: (i) Parser.tla decides which token lands in which field and that a literal which does not fit its field (literal catalogue: limits of every integer width in decimal and hex, float overflow, identifier length, ...) is diagnosed, and the driver compares stored values with token texts; (ii) for every element of the grammar under seeded layout patterns (with comments in block-level gaps) the written text must hold the same significant tokens in the same order with equivalent values (relation ContentPreserved of Trace_Layout, evaluated by TLC on the token sequences of an independent tokenizer).",
+    design_ref="DESIGN.md §4.3, §6 C02",
+    note=_LAYOUT_NOTE + " Uninterpreted IF_DATA payloads are covered by C18.",
+    technique="TLA+ specs (Parser.tla, Layout.tla) + relation ContentPreserved evaluated by TLC on observed input/output token sequences of TLC-enumerated cases",
+    engine="tlc+replay",
+)
+CHECKS["C05"] = dict(
+    category="model_checking",
+    text="Layout.tla states line preservation for the offset scheme (stored line per token, offsets as differences, comment heights) and TLC checks it on all abstract documents of up to 4 items, with the expected violation for the pinned scheme (multi-line block comments). The maximal document of each of the 205 grammar elements is laid out under seeded patterns from MC_LayoutCases (one line, token per line, blank lines, CRLF, two gap changes at relative positions, line and block comments of height 1-3 in block-level gaps), loaded and written by the real library, and TLC (Trace_Layout) judges that every significant token and comment is written on the line it had in the input and that text in the writer's own format is reproduced byte for byte.",
+    design_ref="DESIGN.md §4.7, §6 C05",
+    note=_LAYOUT_NOTE,
+    technique="TLA+ spec (Layout.tla) model-checked with TLC; TLC-enumerated layout patterns applied to real documents; observed token lines judged by TLC (Trace_Layout)",
+    engine="tlc+replay",
+)
+
 PENDING = "check not built yet in this round; planned per DESIGN.md §6 (no claim made until the TLA+ module and its binding exist)"
 NOT_APPLICABLE = {}
 
